@@ -43,7 +43,7 @@ func parseLoopCut(r *ObRun) *LoopCut {
 
 func (c *Ctx) runLoopCut(fn *ssa.Function, st *State) {
 	c.callFunction(fn, nil, nil, st, nil)
-	if !c.cutSpec.done {
+	if !c.cutSpec.done && !c.skipRun {
 		fail("cut: the harness never called %s", c.cutSpec.fnName)
 	}
 }
@@ -322,6 +322,21 @@ func (c *Ctx) havocNamed(old Value, prefix string) Value {
 		r := &StructV{F: make([]Value, len(x.F))}
 		for i := range x.F {
 			r.F[i] = c.havocNamed(x.F[i], fmt.Sprintf("%s.%d", prefix, i))
+		}
+		// ghost attributes the value carried stay attributes of the arbitrary value (arbitrary themselves), so
+		// that the invariant and the loop body speak about the same ghost
+		if len(x.G) > 0 {
+			r.G = map[string]Value{}
+			var ks []string
+			for k := range x.G {
+				ks = append(ks, k)
+			}
+			sort.Strings(ks)
+			for _, k := range ks {
+				if t, ok := x.G[k].(*Term); ok {
+					r.G[k] = c.newInput(c.freshName(prefix+"#"+k), t.sort)
+				}
+			}
 		}
 		return r
 	case *ArrayV:
